@@ -4,6 +4,7 @@ import (
 	"fmt"
 	"go/token"
 	"go/types"
+	"sort"
 
 	"golang.org/x/tools/go/ssa"
 )
@@ -18,6 +19,13 @@ func checkC18(c *Ctx) {
 	c08UnknownBody(c) // R4: block specs agree on unknown bodies
 	c07Dynblock(c)    // R5: variables reported for expansion
 	c.NotCovered("the 'as if written out' equality of decoded values; iteration order of the for_each collection (delegated to cty's ElementIterator)")
+	c.Rule("R9 unknown.noerror (shared with C05): in ext/dynblock, an operand (for_each, labels, iterator) that evaluates to cty.DynamicVal takes no branch, decided by the fixed answers of the cty predicates on such a value, after which an error is recorded on every path: an unknown for_each is expanded to an unknown body, never rejected")
+	var dynFns []*ssa.Function
+	for _, fn := range c.P.pkgFuncs("ext/dynblock") {
+		dynFns = append(dynFns, fn)
+	}
+	sort.Slice(dynFns, func(i, j int) bool { return dynFns[i].Pos() < dynFns[j].Pos() })
+	c05UnknownNoError(c, "unknown.noerror", dynFns)
 }
 
 // R1/R2: every block produced by expandBlocks gets an expanded child body with the right iteration.
